@@ -29,6 +29,12 @@ fn plans_c01(tier: Tier) -> Vec<Plan> {
     c.topics = s(&["a/b", "a/c"]);
     c.filters = s(&["a/b", "a/+", "#"]);
     v.push(Plan { cfg: c.clone(), depth_by_devs: if quick { vec![4, 3] } else { vec![5, 5, 4] } });
+    // a filter `T/#` next to the topic `T` itself (parent level), created before or after
+    // `T` was first published (seed C01-e)
+    let mut cp = c.clone();
+    cp.topics = s(&["a/b", "a/b/c"]);
+    cp.filters = s(&["a/b", "a/b/#"]);
+    v.push(Plan { cfg: cp, depth_by_devs: if quick { vec![4, 3] } else { vec![5, 5, 4] } });
     // variant 1: QoS1/2
     let mut c1 = c.clone();
     c1.variant = 1;
@@ -164,7 +170,11 @@ fn plans_c09(tier: Tier) -> Vec<Plan> {
     c1.variant = 1;
     c1.topics = s(&["a/b"]);
     c1.filters = s(&["a/b"]);
-    v.push(Plan { cfg: c1, depth_by_devs: if q { vec![5] } else { vec![8, 6] } });
+    v.push(Plan { cfg: c1.clone(), depth_by_devs: if q { vec![5] } else { vec![8, 6] } });
+    // the window of a member of a shared subscription (seed C09-f)
+    let mut cs = c1;
+    cs.filters = s(&["$share/g/a/b"]);
+    v.push(Plan { cfg: cs, depth_by_devs: if q { vec![5] } else { vec![7, 6] } });
     let mut c2 = c.clone();
     c2.variant = 2;
     c2.topics = s(&["a/b"]);
